@@ -3,13 +3,16 @@
 
 pub mod codec;
 pub mod formats;
+pub mod limits;
 pub mod model;
 pub mod report;
 pub mod rng;
 pub mod scen;
 pub mod scenengine;
 pub mod scengen;
+pub mod signeng;
 pub mod state;
+pub mod total;
 pub mod vmcase;
 pub mod vmengine;
 pub mod vmgen;
